@@ -4,6 +4,7 @@
      m(arg..)           ->  { .const p = (arg) ..   body of m }          (fresh scope, parameters bound)
      uses of a constant ->  its parenthesised defining expression
      .import .. from f  ->  imp: { parameter block, statements of f }  .const name = imp.name ..
+     .import * as ns from f  ->  ns: { parameter block, statements of f }
    Conditions, loop counts and the binding of names are read off the FINAL symbols of the build of the original
    program (the same map the C02 oracle uses), from the scope in which each construct stands; loop bodies and macro
    bodies are expanded once per iteration / invocation.  `print_tokens` renders the result as source text. *)
@@ -207,7 +208,8 @@ Fixpoint xp (fuel : nat) (t : token) : X (list token) :=
           | Some toks =>
               s <= xget ;;
               let inner_defs := collect fuel0 (xs_scope s ++ [isc]) toks in
-              let simple := match args with ImportAll _ (Some _) => false | _ => true end in
+              (* `as` a one-component namespace: the file's text in a labelled block of that name at the import site *)
+              let simple := match args with ImportAll _ (Some ([_], _)) => true | ImportAll _ (Some _) => false | _ => true end in
               if x_imports o && simple && (match inner_defs with [] => true | _ => false end) then
                 let name := t_imp ++ z_to_text (Z.of_nat (xs_fresh s)) in
                 xmod (fun s => mkXS (xs_scope s) (xs_macro s) (xs_defs s) (S (xs_fresh s))) ;;=
@@ -227,8 +229,12 @@ Fixpoint xp (fuel : nat) (t : token) : X (list token) :=
                                                               end
                                           end) items
                   end in
-                xret (TLabel name sp0 (Some (Blk sp0 sp0 body))
-                      :: map (fun na => TVarDef VConst (fst na) sp0 (mkL (EId (name :: snd na) None false false) sp0 [])) names)
+                match args with
+                | ImportAll _ (Some ([ns], _)) => xret [TLabel ns sp0 (Some (Blk sp0 sp0 body))]
+                | _ =>
+                    xret (TLabel name sp0 (Some (Blk sp0 sp0 body))
+                          :: map (fun na => TVarDef VConst (fst na) sp0 (mkL (EId (name :: snd na) None false false) sp0 [])) names)
+                end
               else xstop 1%nat        (* an import that stays cannot be printed from the tree *)
           end
       | TInstr mn msp (Some (e, fo)) => e' <= xsub e ;; xret [TInstr mn msp (Some (e', fo))]
@@ -294,9 +300,28 @@ Fixpoint xp (fuel : nat) (t : token) : X (list token) :=
   end.
 End Expand.
 
+(* an import that is still there (e.g. in the body of a loop that runs zero times) cannot be printed from the tree *)
+Fixpoint has_import (fuel : nat) (t : token) : bool :=
+  match fuel with
+  | O => true
+  | S f =>
+      let blk b := existsb (has_import f) (blk_inner b) in
+      let oblk b := match b with Some b => blk b | None => false end in
+      match t with
+      | TImport _ _ _ _ => true
+      | TBraces _ b => blk b
+      | TLabel _ _ b => oblk b
+      | TIf _ a b => blk a || oblk b
+      | TLoop _ _ b => blk b
+      | TSegment _ b => oblk b
+      | TMacroDef _ _ _ b => blk b
+      | _ => false
+      end
+  end.
+
 Definition expand (o : xopts) (fuel : nat) (m : fsyms) (toks : list token) : option (list token) + nat :=
   match xmapcat (xp o m (collect fuel [] toks) fuel fuel) toks (mkXS [] 0%nat [] 0%nat) with
-  | XOk r _ => inl (Some r)
+  | XOk r _ => if existsb (has_import fuel) r then inr 1%nat else inl (Some r)
   | XStop w => inr w
   end.
 
